@@ -11,6 +11,7 @@
 package http2_test
 
 import (
+	"context"
 	"encoding/json"
 	"errors"
 	"fmt"
@@ -312,7 +313,7 @@ func (d *vfCli) do(cmd vfCliCmd) bool {
 			return false
 		}
 		r := &vfCliReq{idx: len(d.reqs) + 1, body: cmd.Body}
-		if r.body == "" {
+		if r.body == "" || r.body == "none" {
 			r.body = "none"
 		}
 		if cmd.E == "starton" {
@@ -329,6 +330,41 @@ func (d *vfCli) do(cmd vfCliCmd) bool {
 			d.emit(map[string]any{"e": "start", "r": r.idx, "body": r.body})
 			r.rt = d.tt.roundTrip(d.newRequest(r))
 		}
+	case "burst": // cmd.Max plain requests enter Transport.RoundTrip at the same moment
+		k := cmd.Max
+		if len(d.reqs)+k > d.nreq {
+			k = d.nreq - len(d.reqs)
+		}
+		if k < 2 {
+			return false
+		}
+		gate := make(chan struct{})
+		for i := 0; i < k; i++ {
+			r := &vfCliReq{idx: len(d.reqs) + 1, body: "none"}
+			d.reqs = append(d.reqs, r)
+			d.emit(map[string]any{"e": "start", "r": r.idx, "body": r.body})
+			ctx, cancel := context.WithCancel(context.Background())
+			req := d.newRequest(r).WithContext(ctx)
+			rt := &testRoundTrip{t: d.tb, donec: make(chan struct{}), cancel: cancel}
+			r.rt = rt
+			go func() {
+				defer close(rt.donec)
+				<-gate
+				rt.resp, rt.respErr = d.tt.tr.RoundTrip(req)
+			}()
+			d.tb.Cleanup(func() {
+				cancel()
+				synctest.Wait()
+				select {
+				case <-rt.donec:
+					if rt.resp != nil {
+						rt.resp.Body.Close()
+					}
+				default:
+				}
+			})
+		}
+		close(gate)
 	case "reserve":
 		c := d.conn(cmd.C)
 		if c == nil || !c.live() {
@@ -549,6 +585,15 @@ func (d *vfCli) finish() {
 				progress = d.step(vfCliCmd{E: "resp", R: r.idx, Es: true}) || progress
 			}
 		}
+		if !progress && it >= 2 {
+			// a server that said GOAWAY and has nothing left to answer closes the connection
+			for _, c := range d.conns {
+				if c.goaway && c.live() {
+					progress = d.step(vfCliCmd{E: "close", C: c.idx})
+					break
+				}
+			}
+		}
 		if !progress {
 			d.step(vfCliCmd{E: "tick"})
 		}
@@ -630,8 +675,10 @@ func vfCliSeeded(d *vfCli, rnd *rand.Rand, mix string, nops int) {
 				cmd = vfCliCmd{E: "goaway", C: pickConn(anyConn), R: pickReq(isOpen), Lm: lms[rnd.Intn(len(lms))], Code: codes[rnd.Intn(len(codes))]}
 			case x < 84:
 				cmd = vfCliCmd{E: "close", C: pickConn(func(c *vfCliConn) bool { return c.goaway || rnd.Intn(3) == 0 })}
-			case x < 88:
+			case x < 86:
 				cmd = vfCliCmd{E: "tick"}
+			case x < 88:
+				cmd = vfCliCmd{E: "burst", Max: 2 + rnd.Intn(3)}
 			case x < 93:
 				cmd = vfCliCmd{E: "bwrite", R: pickReq(isOpen)}
 			case x < 97:
@@ -641,6 +688,8 @@ func vfCliSeeded(d *vfCli, rnd *rand.Rand, mix string, nops int) {
 			}
 		} else {
 			switch {
+			case x < 5:
+				cmd = vfCliCmd{E: "burst", Max: 2 + rnd.Intn(3)}
 			case x < 26:
 				body := "none"
 				if rnd.Intn(4) == 0 {
@@ -675,8 +724,9 @@ func vfCliSeeded(d *vfCli, rnd *rand.Rand, mix string, nops int) {
 				cmd = vfCliCmd{E: "starton", C: pickConn(anyConn), Body: "none"}
 			}
 		}
-		if len(d.conns) >= 6 && (cmd.E == "goaway" || cmd.E == "close" || cmd.E == "srst") {
-			continue // the trace spec is configured for at most 8 connections
+		if len(d.conns) >= 6 && (cmd.E == "goaway" || cmd.E == "close" || cmd.E == "srst") ||
+			len(d.conns) >= 8 && (cmd.E == "start" || cmd.E == "burst") {
+			continue // the trace spec is configured for at most 12 connections
 		}
 		d.step(cmd)
 	}
@@ -724,10 +774,100 @@ func TestVerifH2Client(t *testing.T) {
 			if mix == "goaway" {
 				strict = rnd.Intn(3) == 0
 			}
-			d := vfCliNew(tb, env, n, strict, 5+rnd.Intn(4))
+			d := vfCliNew(tb, env, n, strict, 6+rnd.Intn(5))
 			vfCliSeeded(d, rnd, mix, env.Int("ops", 40))
 			d.finish()
 		})
 	}
+	// systematic scenarios: GOAWAY position x last-stream-id x code x body (a seeded sample of
+	// "enum" of them, all if enum < 0), then the fixed regression scenarios
+	scripts := vfCliEnum()
+	if e := env.Int("enum", 0); e >= 0 && e < len(scripts) {
+		rnd := env.Rand(99)
+		rnd.Shuffle(len(scripts), func(i, j int) { scripts[i], scripts[j] = scripts[j], scripts[i] })
+		scripts = scripts[:e]
+	}
+	scripts = append(scripts, vfCliFixed()...)
+	for _, sc := range scripts {
+		tn++
+		if !env.Only(tn) {
+			continue
+		}
+		n, sc := tn, sc
+		synctestSubtest(t, fmt.Sprintf("e%d", n), func(tb testing.TB) {
+			d := vfCliNew(tb, env, n, sc[0].St, 8)
+			for _, c := range sc[1:] {
+				d.step(c)
+			}
+			d.finish()
+		})
+	}
 	env.Finish(nil)
+}
+
+// vfCliEnum enumerates GOAWAY scenarios: two earlier requests, a target request (r3) with every
+// body kind brought to a stage (queued behind the limit, headers written, body partly written,
+// response started), a later request, then GOAWAY with last in {0, below r3, r3, 2^31-1} and a
+// graceful or an error code; afterwards the server answers what it accepted and closes.
+func vfCliEnum() [][]vfCliCmd {
+	var out [][]vfCliCmd
+	for _, strict := range []bool{false, true} {
+		for _, stage := range []string{"hdr", "half", "resp", "wait"} {
+			for _, body := range []string{"none", "gb", "once", "ggb", "gonce"} {
+				gated := body == "ggb" || body == "gonce"
+				if stage == "half" && !gated || stage == "wait" && !strict {
+					continue
+				}
+				for _, lm := range []string{"zero", "below", "at", "max"} {
+					for _, code := range []int{0, 2} {
+						sc := []vfCliCmd{{St: strict}, {E: "start", Body: "none"}}
+						if stage == "wait" {
+							sc = append(sc, vfCliCmd{E: "settings", C: 1, Max: 2})
+						} else {
+							sc = append(sc, vfCliCmd{E: "settings", C: 1, Max: 5})
+						}
+						sc = append(sc, vfCliCmd{E: "start", Body: "gb"}, vfCliCmd{E: "start", Body: body})
+						switch stage {
+						case "half":
+							sc = append(sc, vfCliCmd{E: "bwrite", R: 3})
+						case "resp":
+							sc = append(sc, vfCliCmd{E: "resp", R: 3})
+						}
+						if stage != "wait" {
+							sc = append(sc, vfCliCmd{E: "start", Body: "none"})
+						}
+						g := vfCliCmd{E: "goaway", C: 1, Lm: lm, R: 3, Code: code}
+						if stage == "wait" { // r3 has no stream: position last relative to r2
+							g.R = 2
+						}
+						sc = append(sc, g, vfCliCmd{E: "resp", R: 1, Es: true}, vfCliCmd{E: "bclose", R: 3},
+							vfCliCmd{E: "resp", R: 2, Es: true}, vfCliCmd{E: "resp", R: 3, Es: true},
+							vfCliCmd{E: "data", R: 3, Es: true}, vfCliCmd{E: "close", C: 1})
+						out = append(out, sc)
+					}
+				}
+			}
+		}
+	}
+	return out
+}
+
+// vfCliFixed are regression scenarios that run in every check.
+func vfCliFixed() [][]vfCliCmd {
+	return [][]vfCliCmd{
+		// two reservations, the limit drops to 1, a direct RoundTrip fails before it gets a stream
+		// id, then the pool is asked for a connection while one reservation is still held
+		{{St: false}, {E: "start"}, {E: "resp", R: 1, Es: true}, {E: "settings", C: 1, Max: 2},
+			{E: "reserve", C: 1}, {E: "reserve", C: 1}, {E: "settings", C: 1, Max: 1},
+			{E: "starton", C: 1}, {E: "start"}, {E: "starton", C: 1}},
+		// strict: limit 1, cancelled unanswered request keeps its slot until the PING ack
+		{{St: true}, {E: "start"}, {E: "settings", C: 1, Max: 1}, {E: "start"}, {E: "start"},
+			{E: "cancel", R: 1}, {E: "pingack", C: 1}, {E: "resp", R: 2, Es: true}, {E: "resp", R: 3, Es: true}},
+		// strict: limit lowered below the open count, streams finish one by one, then raised
+		{{St: true}, {E: "start"}, {E: "settings", C: 1, Max: 3}, {E: "start"}, {E: "start"},
+			{E: "settings", C: 1, Max: 1}, {E: "start"}, {E: "resp", R: 1, Es: true}, {E: "resp", R: 2, Es: true},
+			{E: "resp", R: 3, Es: true}, {E: "start"}, {E: "settings", C: 1, Max: 2}, {E: "resp", R: 4, Es: true}},
+		// error GOAWAY while only stream 1 is in flight (documented: not retried), then a fresh request
+		{{St: false}, {E: "start"}, {E: "goaway", C: 1, Lm: "zero", Code: 2}, {E: "start"}, {E: "resp", R: 2, Es: true}},
+	}
 }
